@@ -122,8 +122,14 @@ fn check_d<const D: usize>(c: &Case, ctx: &mut Ctx) -> Result<(), Failure> {
                         if want_v.is_finite() && want_v > 1e-280 && !(rel(o2.v, want_v) <= 8.0 * EPS) {
                             fail!("v-scaling", "v does not scale with the square of the kinematic scale 2^{kx}: {:e} vs 4^k * {:e}; case {c:?}", o2.v, ev.out.v);
                         }
-                        let want_j = ev.out.jac * 2f64.powf(-2.0 * kx as f64 * ev.dod);
-                        if want_j.is_finite() && want_j > 1e-280 && !(rel(o2.jac, want_j) <= 64.0 * EPS * (1.0 + ev.dod.abs() * (o2.v.ln().abs() + ev.out.v.ln().abs()))) {
+                        // the exponent is the sampler's own dod; its rounding (sum of weights) is amplified by 2|k| ln 2
+                        let dod_sut = ev.tab.dod;
+                        let want_j = ev.out.jac * 2f64.powf(-2.0 * kx as f64 * dod_sut);
+                        let dod_round = 8.0 * (ev.ne as f64 + 2.0) * EPS * (g.wsum_abs() + (ev.nl * D) as f64);
+                        let tol_j = 64.0 * EPS * (1.0 + ev.dod.abs() * (o2.v.ln().abs() + ev.out.v.ln().abs())) + 2.0 * (kx.abs() as f64) * std::f64::consts::LN_2 * dod_round;
+                        // every factor of the weight must stay a normal f64 number (no subnormal intermediates)
+                        let factors_normal = ev.dod.abs() * o2.v.ln().abs() < 600.0 && ev.dod.abs() * ev.out.v.ln().abs() < 600.0 && (D as f64 / 2.0) * o2.u.ln().abs() < 600.0 && o2.jac > 1e-250 && o2.jac < 1e250;
+                        if factors_normal && want_j.is_finite() && want_j > 1e-250 && want_j < 1e250 && !(rel(o2.jac, want_j) <= tol_j) {
                             fail!("jacobian-scaling", "jacobian does not scale as (2^{kx})^(-2 dod): {:e} vs {want_j:e}; case {c:?}", o2.jac);
                         }
                         ctx.label("scaling-relation-checked");
